@@ -167,3 +167,11 @@ func VerifTaskBufferReader(parts [][]frame.Frame, partition int) sliceio.ReadClo
 
 // VerifMultiReader returns the executor's sequential multi-reader (local.go).
 func VerifMultiReader(rs []sliceio.Reader) sliceio.Reader { return &multiReader{q: rs} }
+
+// ---- C05: the default partitioner
+
+func VerifDefaultPartition(f frame.Frame, nshard int) []int {
+	shards := make([]int, f.Len())
+	defaultPartitioner(context.Background(), f, nshard, shards)
+	return shards
+}
